@@ -27,6 +27,7 @@ RULE = ("typestate dataflow on the clang CFG: token iterators (locals, parameter
         "dereferenced only in state CHECKED; helper summaries from bodies; ownership rule")
 # suppressions: one named symbol each, with the reason (confirmed by reading on 2026-09-22)
 ACCEPTED = {
+    "UNCHECKED-INCREMENT@mfront::BehaviourDSLCommon::treatUnknownKeyword#this->current": "same reason as the dereference just before it (accepted below): when no brick treated the keyword the iterator has not moved since checkNotEndOfFile, and it was just dereferenced ('[')",
     "UNCHECKED-DEREF@mfront::SupportedTypes::parseType#current": "the template-argument loop is left only through 'c = false', which is set right after checkIteratorValidity(current, end) with no advance in between (flag correlation not tracked by the engine)",
     "UNCHECKED-DEREF@mfront::BehaviourDSLCommon::treatUnknownKeyword#this->current": "read only when no brick treated the keyword: a brick that returns {false, .} has not moved the iterator (contract of AbstractBehaviourBrick::treatKeyword), and the position was checked on entry",
     "UNCHECKED-DEREF@tfel::utilities::CxxTokenizer::printFileTokens#p": "guarded by the tokens.empty() early return (the engine does not relate empty() to begin() != end())",
@@ -263,10 +264,21 @@ def run(tier):
     units.append(os.path.join(REPO, "src/Utilities/CxxTokenizer.cxx"))
     units += [u for u in units_under("src/Math") if "IntegerEvaluator" in os.path.basename(u)]
     units += [u for u in allu if os.path.basename(u) in ("ModelDSL.cxx",)]
-    funcs, found = C54.analyse_units(rep, sorted(set(units)), r"^(mfront::|tfel::utilities::CxxTokenizer|tfel::math::IntegerEvaluator)", member="this->current")
+    funcs, found = C54.analyse_units(rep, sorted(set(units)), r"^(mfront::|tfel::utilities::CxxTokenizer|tfel::math::IntegerEvaluator)", member="this->current", check_increment=True)
     seen = set()
     for f, sid, var, why in found:
         loc = rel(f.short_loc(sid)) if sid in f.stmts else rel(f.loc)
+        if why == "incremented":
+            key = "UNCHECKED-INCREMENT@%s#%s" % (f.qname, var)
+            if key in seen:
+                continue
+            seen.add(key)
+            if key in ACCEPTED:
+                rep.ok("accepted idiom %s: %s" % (key, ACCEPTED[key]))
+                continue
+            rep.fail(key, "%s: in %s the token iterator '%s' is incremented on a path where it may already be the end of the token stream: it "
+                     "moves past the end and the next end test does not fire" % (loc, f.qname, var))
+            continue
         key = "UNCHECKED-DEREF@%s#%s" % (f.qname, var)
         if key in seen:
             continue
